@@ -3,55 +3,25 @@
 
   Model: Influx.Model.LineProtocol* (written from models/points.go, pkg/escape).
   Statement: Influx.Spec.C11 (`holdsOnKey`, `holdsOnPt`, `Valid`, `ValidKey`).
+  Lemmas: Influx.Lemmas.LineProtocol*.
 -/
-import Influx.Lemmas.LineProtocolKey
-import Influx.Lemmas.LineProtocolTrace
+import Influx.Lemmas.LineProtocolRoundTrip
 
 namespace Influx.Props.C11
 open Influx.LP Influx.LP.Trace Influx.Spec.C11
 
+/-! ### escaping -/
+
+/-- `unescapeTag ∘ escapeTag = id` and `unescapeMeasurement ∘ EscapeMeasurement = id` on EVERY
+    byte string (the `bytes.Replace` chains never confuse each other); likewise
+    `escape.Unescape ∘ escape.String` and `unescapeStringField ∘ EscapeStringField`. -/
+theorem C11_escape_inverse (s : Bytes) :
+    unescapeTag (escapeTag s) = s ∧ unescapeMeasurement (escapeMeasurement s) = s ∧
+    unescape (escapeString s) = s ∧ unescapeStringField (escapeStringField s) = s :=
+  ⟨unescapeTag_escapeTag s, unescapeMeasurement_escapeMeasurement s, unescape_escapeString s,
+   unescapeStringField_escape s⟩
+
 /-! ### series keys -/
-
-theorem replace21_no_pair (k : Nat) (s : Bytes) (h : bsBefore (fun c => c == k) s = false) :
-    replace21 cBS k k s = s := by
-  induction s with
-  | nil => rfl
-  | cons a r ih =>
-    cases r with
-    | nil => rfl
-    | cons b r' =>
-      simp only [bsBefore, Bool.or_eq_false_iff, Bool.and_eq_false_iff] at h
-      have hnot : ¬ (a = cBS ∧ b = k) := by
-        intro ⟨h1, h2⟩; rcases h.1 with h | h <;> simp_all
-      rw [replace21, if_neg hnot, ih h.2]
-
-theorem bsBefore_mono (S T : Nat → Bool) (hST : ∀ c, T c = true → S c = true) (s : Bytes)
-    (h : bsBefore S s = false) : bsBefore T s = false := by
-  induction s with
-  | nil => rfl
-  | cons a r ih =>
-    cases r with
-    | nil => rfl
-    | cons b r' =>
-      simp only [bsBefore, Bool.or_eq_false_iff, Bool.and_eq_false_iff] at h ⊢
-      refine ⟨?_, ih h.2⟩
-      rcases h.1 with h1 | h1
-      · exact Or.inl h1
-      · right
-        cases hT : T b with
-        | false => rfl
-        | true => rw [hST b hT] at h1; cases h1
-
-/-- a name without `\,` and `\ ` is its own unescaped form -/
-theorem unescapeMeasurement_id (name : Bytes) (h : bsBefore Spec.C11.isMeasSpecial name = false) :
-    unescapeMeasurement name = name := by
-  unfold unescapeMeasurement unescapeWith
-  split
-  · rfl
-  · unfold measurementEscapeCodes
-    simp only [List.foldl_cons, List.foldl_nil, replace21_guard]
-    rw [replace21_no_pair cComma name (bsBefore_mono _ _ (by intro c hc; simp [Spec.C11.isMeasSpecial] at hc ⊢; simp [hc]) _ h)]
-    rw [replace21_no_pair cSpace name (bsBefore_mono _ _ (by intro c hc; simp [Spec.C11.isMeasSpecial] at hc ⊢; simp [hc]) _ h)]
 
 /-- **Series keys round-trip** (second sentence of C11): for every non-empty name that does
     not end in a backslash and holds no `\,` / `\ `, and all tags with a value whose key and
@@ -101,10 +71,53 @@ theorem C11_key_full_fails :
 -- non-vacuity: ValidKey holds of a name and tags full of delimiters
 example : ValidKey (str "cpu load,=x") [⟨str "ho st", str "a=b,c"⟩, ⟨str "ho st", str "\\x"⟩] = true := by decide
 
-/-! ### points: classes outside `Valid` that the real code accepts and does not give back
-    (each is replayed on the real code by the check, see findings.d/C11.json) -/
+/-! ### points -/
+
+/-- **Points round-trip** (first sentence of C11) on the model, for every point in `Valid`,
+    every supported precision and every default time: `NewPoint` accepts the point; its
+    `String()` / `PrecisionString(prec)` is one line; `ParsePointsWithPrecision` returns exactly
+    one point and no error; `Name()` is the measurement, `Tags()` the tag set in sorted order,
+    `Fields()` the same field names with identical types and values (floats through Go's own
+    text, see `floatTextOK` / `floatsConsistent`), `UnixNano()` the same timestamp (the default
+    time cut to the precision when the point has none). -/
+theorem C11_pt_holdsOn_partial (p : PointIn) (prec : String) (dt : Int)
+    (h : ValidObs (modelPtObs prec dt p) = true) : holdsOnPt (modelPtObs prec dt p) = true := by
+  simp only [ValidObs, modelPtObs, Bool.and_eq_true, Bool.or_eq_true] at h
+  exact holdsOnPt_valid p prec dt h.1.1 h.1.2 h.2
+
+/-- what the parser hands back for a valid point, spelled out -/
+theorem C11_pt_roundtrip (p : PointIn) (prec : String) (dt : Int)
+    (h : ValidObs (modelPtObs prec dt p) = true) :
+    ∃ q, modelPt prec dt p = .parsed q ∧ q.name = p.name ∧ q.tags = expectedTags p ∧
+      q.fields = expectedFields p ∧ timeOK prec dt p.time q.time = true := by
+  have hh := C11_pt_holdsOn_partial p prec dt h
+  simp only [holdsOnPt, modelPtObs] at hh
+  cases hm : modelPt prec dt p with
+  | rejected =>
+    rw [hm] at hh
+    simp only [ValidObs, modelPtObs, Bool.and_eq_true] at h
+    simp [h.1.1] at hh
+  | failed => rw [hm] at hh; cases hh
+  | parsed q =>
+    rw [hm] at hh
+    simp only [sameBack, Bool.and_eq_true, decide_eq_true_eq] at hh
+    exact ⟨q, rfl, hh.1, hh.2.1, hh.2.2.1, hh.2.2.2⟩
+
+/-- **C11 on the model** (partial: for valid operations): the statement checker accepts the
+    model's answer to every operation of the protocol. -/
+theorem C11_holdsOn_partial :
+    (∀ name tags, ValidKey name tags = true → holdsOnKey (modelKeyObs name tags) = true) ∧
+    (∀ p prec dt, ValidObs (modelPtObs prec dt p) = true → holdsOnPt (modelPtObs prec dt p) = true) :=
+  ⟨C11_key_holdsOn_partial, C11_pt_holdsOn_partial⟩
 
 def intField : List (Bytes × FV) := [(str "f", .int 1)]
+
+-- non-vacuity: a valid point with delimiters, quotes, unicode bytes, every field type
+example : ValidObs (modelPtObs "ms" 1600000000123456789
+    ⟨str "cpu load,=x\"", [⟨str "a b", str "1,2"⟩, ⟨str "ho=st", [195, 169, 92, 120]⟩],
+     [(str "f 1", .float 4609434218613702656 (str "1.5")), (str "g,\"", .int (-9223372036854775808)),
+      (str "h", .uint 18446744073709551615), (str "i=", .bool true), (str "s", .str (str "a\"b\\c, d=e"))],
+     some (-9223372036854000000)⟩) = true := by decide
 
 /-- The first sentence is FALSE for all points `NewPoint` accepts.  Witness: tags `a,`=1 and
     `a-`=2 (sorted by key, as `NewTags` sorts them) come back in the order `a-`, `a,`: the
@@ -115,6 +128,23 @@ theorem C11_pt_full_fails :
   intro h
   have := h "ns" 0 ⟨str "m", [⟨str "a,", str "1"⟩, ⟨str "a-", str "2"⟩], intField, some 0⟩
   revert this
+  decide
+
+/-- further classes outside `Valid` that `NewPoint` accepts and the parser does not give back
+    (each replayed on the real code by the check, findings.d/C11.json) -/
+theorem C11_pt_excluded_witnesses :
+    -- a tag value ending in a backslash
+    holdsOnPt (modelPtObs "ns" 0 ⟨str "m", [⟨str "k", str "v\\"⟩], intField, some 0⟩) = false ∧
+    -- `Name()` un-escapes `\=`, `MakeKey` does not escape it
+    holdsOnPt (modelPtObs "ns" 0 ⟨str "a\\=b", [], intField, some 0⟩) = false ∧
+    -- a field key with a backslash before a comma
+    holdsOnPt (modelPtObs "ns" 0 ⟨str "m", [], [(str "a\\,b", .int 1)], some 0⟩) = false ∧
+    -- a measurement that starts like a comment: no point, no error
+    holdsOnPt (modelPtObs "ns" 0 ⟨str "#m", [], intField, some 0⟩) = false ∧
+    -- reserved tag key, duplicate tag keys, empty measurement
+    holdsOnPt (modelPtObs "ns" 0 ⟨str "m", [⟨str "time", str "1"⟩], intField, some 0⟩) = false ∧
+    holdsOnPt (modelPtObs "ns" 0 ⟨str "m", [⟨str "a", str "1"⟩, ⟨str "a", str "2"⟩], intField, some 0⟩) = false ∧
+    holdsOnPt (modelPtObs "ns" 0 ⟨[], [], intField, some 0⟩) = false := by
   decide
 
 end Influx.Props.C11
